@@ -19,8 +19,7 @@ import re
 from . import common
 from .common import cbool
 
-THEOREMS = ["tree_counts"]
-THEOREMS_FINAL = [
+THEOREMS = [
     "model_meets_spec", "counts_correct", "reject_iff", "reject_reason_sound",
     "no_reject_when_off", "callback_once_in_order", "call_styles_equal",
     "rpc_binds_like_python_partial", "rpc_reject_refuted",
